@@ -189,19 +189,21 @@ pub fn k_c29_trace_table_builders_agree() {
     vreach!("C29.builders.reach");
 }
 
-/// second mock AIR: the same transition constraint, TWO exempt steps (transitions 6 -> 7 and 7 -> 0 are not
-/// checked, so cell 7 is constrained by no transition), a single assertion on cell 0 and a sequence assertion
-/// on cells 3 and 7 - cell 7 is constrained only as the *second* step of a multi-step assertion
+/// second mock AIR: the same transition constraint with THREE exempt steps (transitions 5 -> 6, 6 -> 7 and
+/// 7 -> 0 are not checked, so cells 6 and 7 are constrained by no transition), a single assertion on cell 0, a
+/// periodic assertion on cells 2 and 6 and a sequence assertion on cells 3 and 7: cell 6 is constrained only as
+/// the *second* step of the periodic assertion, cell 7 only as the second step of the sequence assertion
 pub struct MockAir2 {
     ctx: AirContext<Tiny>,
     start: Tiny,
     k: [Tiny; 2],
+    per: Tiny,
     seq: [Tiny; 2],
 }
-pub struct Pub2(Tiny, Tiny, Tiny, Tiny, Tiny);
+pub struct Pub2(Tiny, Tiny, Tiny, Tiny, Tiny, Tiny);
 impl math::ToElements<Tiny> for Pub2 {
     fn to_elements(&self) -> Vec<Tiny> {
-        alloc::vec![self.0, self.1, self.2, self.3, self.4]
+        alloc::vec![self.0, self.1, self.2, self.3, self.4, self.5]
     }
 }
 impl Air for MockAir2 {
@@ -209,8 +211,8 @@ impl Air for MockAir2 {
     type PublicInputs = Pub2;
     fn new(trace_info: TraceInfo, pi: Pub2, options: ProofOptions) -> Self {
         let degrees = alloc::vec![TransitionConstraintDegree::with_cycles(1, alloc::vec![2])];
-        let ctx = AirContext::new(trace_info, degrees, 3, options).set_num_transition_exemptions(2);
-        MockAir2 { ctx, start: pi.0, k: [pi.1, pi.2], seq: [pi.3, pi.4] }
+        let ctx = AirContext::new(trace_info, degrees, 5, options).set_num_transition_exemptions(3);
+        MockAir2 { ctx, start: pi.0, k: [pi.1, pi.2], per: pi.3, seq: [pi.4, pi.5] }
     }
     fn context(&self) -> &AirContext<Tiny> {
         &self.ctx
@@ -224,7 +226,11 @@ impl Air for MockAir2 {
         result[0] = frame.next()[0] - frame.current()[0] - periodic_values[0];
     }
     fn get_assertions(&self) -> Vec<Assertion<Tiny>> {
-        alloc::vec![Assertion::single(0, 0, self.start), Assertion::sequence(0, 3, 4, alloc::vec![self.seq[0], self.seq[1]])]
+        alloc::vec![
+            Assertion::single(0, 0, self.start),
+            Assertion::periodic(0, 2, 4, self.per),
+            Assertion::sequence(0, 3, 4, alloc::vec![self.seq[0], self.seq[1]]),
+        ]
     }
     fn get_periodic_column_values(&self) -> Vec<Vec<Tiny>> {
         alloc::vec![alloc::vec![self.k[0], self.k[1]]]
@@ -242,37 +248,59 @@ fn honest_column(start: Tiny, k0: Tiny, k1: Tiny) -> Vec<Tiny> {
     }
     col
 }
+// concrete start / increments (the first mock AIR's harnesses range over all of them); symbolic are the cells the
+// multi-step assertions alone constrain and the asserted values
+const START: Tiny = Tiny(3);
+const K0: Tiny = Tiny(5);
+const K1: Tiny = Tiny(11);
 
-//# harness: fn=Trace::validate (two exemptions, sequence assertion: accepts every satisfying trace, cell 7 free of transitions); label=bounded(F_17, mock AIR 2, trace length 8, all (start, k0, k1), cell 7 arbitrary and asserted as such); tier=quick; uses=honest_column; timeout=900
+//# harness: fn=Trace::validate (three exemptions, periodic and sequence assertions: accepts every satisfying trace); label=bounded(F_17, mock AIR 2, trace length 8; cell 7 arbitrary, cell 6 equal to cell 2); tier=quick; uses=honest_column; timeout=900
 #[cfg_attr(kani, kani::proof)]
 #[cfg_attr(kani, kani::unwind(12))]
 #[cfg_attr(kani, kani::stub(alloc::fmt::format, vs::fake_format))]
 pub fn k_c29_validate2_accepts_satisfying() {
-    let (start, k0, k1) = (any_tiny(), any_tiny(), any_tiny());
-    let mut col = honest_column(start, k0, k1);
-    // with two exemptions no transition constrains cell 7: any value there satisfies the AIR as long as the
-    // sequence assertion names that value
+    let mut col = honest_column(START, K0, K1);
+    // no transition constrains cells 6 and 7: the periodic assertion forces cell 6 == cell 2, the sequence
+    // assertion names whatever cell 7 holds
+    col[6] = col[2];
     col[7] = any_tiny();
-    let (a3, a7) = (col[3], col[7]);
+    let (per, a3, a7) = (col[2], col[3], col[7]);
     let trace = TraceTable::init(alloc::vec![col]);
-    let air = MockAir2::new(trace.info().clone(), Pub2(start, k0, k1, a3, a7), options());
+    let air = MockAir2::new(trace.info().clone(), Pub2(START, K0, K1, per, a3, a7), options());
     trace.validate::<MockAir2, Tiny>(&air, None);
     vreach!("C29.validate2.accepts.reach");
+}
+
+//# harness: fn=Trace::validate (violation only at the second step of a periodic assertion); label=bounded(F_17, mock AIR 2, trace length 8, cell 6 differs from the periodically asserted value); tier=quick; panics=ignore; replay=no; uses=honest_column; timeout=900
+#[cfg_attr(kani, kani::proof)]
+#[cfg_attr(kani, kani::unwind(12))]
+#[cfg_attr(kani, kani::stub(alloc::fmt::format, vs::fake_format))]
+pub fn k_c29_validate2_rejects_second_periodic_step() {
+    let mut col = honest_column(START, K0, K1);
+    let per = col[2];
+    let wrong = any_tiny();
+    vs::assume(wrong != per);
+    col[6] = wrong;
+    let (a3, a7) = (col[3], col[7]);
+    let trace = TraceTable::init(alloc::vec![col]);
+    let air = MockAir2::new(trace.info().clone(), Pub2(START, K0, K1, per, a3, a7), options());
+    trace.validate::<MockAir2, Tiny>(&air, None);
+    vcheck!("C29.validate.accepted_trace_violating_second_step_of_periodic_assertion", false);
 }
 
 //# harness: fn=Trace::validate (violation only at the second step of a sequence assertion); label=bounded(F_17, mock AIR 2, trace length 8, cell 7 differs from the asserted value); tier=quick; panics=ignore; replay=no; uses=honest_column; timeout=900
 #[cfg_attr(kani, kani::proof)]
 #[cfg_attr(kani, kani::unwind(12))]
 #[cfg_attr(kani, kani::stub(alloc::fmt::format, vs::fake_format))]
-pub fn k_c29_validate2_rejects_second_assertion_step() {
-    let (start, k0, k1) = (any_tiny(), any_tiny(), any_tiny());
-    let col = honest_column(start, k0, k1);
-    let a3 = col[3];
+pub fn k_c29_validate2_rejects_second_sequence_step() {
+    let mut col = honest_column(START, K0, K1);
+    col[6] = col[2];
+    let (per, a3) = (col[2], col[3]);
     let wrong = any_tiny();
     vs::assume(wrong != col[7]);
     let trace = TraceTable::init(alloc::vec![col]);
     // the AIR asserts `wrong` at step 7 while the trace holds something else there; nothing else is violated
-    let air = MockAir2::new(trace.info().clone(), Pub2(start, k0, k1, a3, wrong), options());
+    let air = MockAir2::new(trace.info().clone(), Pub2(START, K0, K1, per, a3, wrong), options());
     trace.validate::<MockAir2, Tiny>(&air, None);
     vcheck!("C29.validate.accepted_trace_violating_second_step_of_sequence_assertion", false);
 }
